@@ -148,6 +148,35 @@ def run(ctx):
         if after != before[(c, name)]:
             fail('notes_depend_on_earlier_scan', {'cat': c, 'name': name, 'earlier_scan': {'enc': polluter['encS'], 'mac': polluter['macS']}},
                  {'text': after[0], 'json': after[1], 'lookup': after[2]}, {'text': before[(c, name)][0], 'json': before[(c, name)][1], 'lookup': before[(c, name)][2]})
+    # … and the same in the order a worker thread of a multi-target scan meets them: on a thread that has rendered nothing yet, first the
+    # scan that edits rating state (text and JSON), then thread_exit() as target_worker_thread() calls it, then the quiet scan — whose text,
+    # JSON and --lookup notes must be what they are on their own (seed C03-11: JSON notes memoised per thread and not dropped by thread_exit)
+    import threading
+    from ssh_audit.ssh2_kexdb import SSH2_KexDB as _DB
+    from ssh_audit.ssh1_kexdb import SSH1_KexDB as _DB1
+    later = {}
+
+    def worker():
+        rc.run_output(polluter, fresh=True)
+        rc.run_output(polluter, fresh=False, use_json=True, batch=False)
+        _DB.thread_exit()
+        _DB1.thread_exit()
+        for c, name, key in probe[-12:]:
+            q = quiet_peer(c, [name])
+            _, o1, _, _ = rc.run_output(q, fresh=False, batch=True)
+            _, _, jtext, _ = rc.run_output(q, fresh=False, batch=False, use_json=True)
+            doc = json.loads(jtext)
+            later[(c, name)] = ([x[1] for x in rc.parse_alg_records(o1.records)[c] if x[0] == name],
+                                [{k: e['notes'].get(k) for k in ('fail', 'warn', 'info')} for e in doc[c] if e['algorithm'] == name])
+            _DB.thread_exit()
+    t = threading.Thread(target=worker)
+    t.start()
+    t.join()
+    for (c, name), (txt, jn) in later.items():
+        cov.add((c, name, 'after-other-scan-on-a-worker-thread'), True, tags=['history-worker-thread'])
+        if txt != before[(c, name)][0] or jn != before[(c, name)][1]:
+            fail('notes_depend_on_earlier_scan', {'cat': c, 'name': name, 'worker_thread': True, 'earlier_scan': {'enc': polluter['encS'], 'mac': polluter['macS']}},
+                 {'text': txt, 'json': jn}, {'text': before[(c, name)][0], 'json': before[(c, name)][1]})
     # unknown names
     for shape in ('plain', 'at', 'long', 'gssunk', 'eq'):
         for c in rc.CATS:
